@@ -463,8 +463,9 @@ def check_snapshot(eng, run):
                     if isinstance(v, ast.Attribute) and dotted(v.value) == me:
                         cleared.add(dotted(v))
     # the scope server_close() cancels: the self attribute bound by a `with ... as self.<attr>` in server_activate
-    cancelled = {dotted(it.optional_vars) for w in own_nodes(act.node) if isinstance(w, (ast.With, ast.AsyncWith)) for it in w.items
-                 if isinstance(it.optional_vars, ast.Attribute) and dotted(it.optional_vars.value) == me}
+    from sa.norm import nodes_inl as _nodes_inl
+    cancelled = {dotted(it.optional_vars) for w, _o in _nodes_inl(act) if isinstance(w, (ast.With, ast.AsyncWith)) for it in w.items
+                 if isinstance(it.optional_vars, ast.Attribute) and dotted(it.optional_vars.value) == me}  # (also in a private helper the activation delegates to)
     cleared -= cancelled
     if not cleared or not cancelled:
         raise AnalysisError("anchor vanished: server_activate() tests the closed marker and registers a cancel scope")
@@ -482,6 +483,7 @@ def check_snapshot(eng, run):
         return False
 
     an = AtomicSection(eng, reads_marker, registers_scope)
+    an.inline_helpers = True
     Interp(an, act).run()
     if not an.starts or not an.ends:
         raise AnalysisError("anchor vanished: server_activate() reads the factory then registers its cancel scope")
@@ -692,11 +694,22 @@ def check_cancel_request_honoured(eng, run):
                     continue
                 scope = dotted(ov)
                 end = getattr(w, "end_lineno", w.lineno)
-                installs = [x for x in own_nodes(fn.node) if isinstance(x, (ast.Assign, ast.AugAssign)) and x.lineno > end
-                            and any((isinstance(t, ast.Attribute) and dotted(t) != scope and dotted(t.value) == fn.self_name) or
-                                    (isinstance(t, ast.Subscript) and isinstance(t.value, ast.Attribute) and dotted(t.value.value) == fn.self_name)
+                def _installs(g, after):
+                    return [x for x in own_nodes(g.node) if isinstance(x, (ast.Assign, ast.AugAssign)) and x.lineno > after
+                            and any((isinstance(t, ast.Attribute) and dotted(t).split(".", 1)[-1] != scope.split(".", 1)[-1] and dotted(t.value) == g.self_name) or
+                                    (isinstance(t, ast.Subscript) and isinstance(t.value, ast.Attribute) and dotted(t.value.value) == g.self_name)
                                     for t in (x.targets if isinstance(x, ast.Assign) else [x.target]))
                             and not (isinstance(x, ast.Assign) and isinstance(x.value, ast.Constant) and x.value.value is None)]
+                installs = _installs(fn, end)
+                if not installs and fn.cls is not None and fn.name.startswith("_") and not fn.name.endswith("__"):
+                    # the block lives in a private helper whose caller installs what it returns
+                    from sa.norm import private_helper
+                    for g in fn.cls.methods.values():
+                        if g is fn or isinstance(g.node, ast.Lambda):
+                            continue
+                        for c in own_nodes(g.node):
+                            if isinstance(c, ast.Call) and private_helper(g, c) is fn:
+                                installs += _installs(g, c.lineno)
                 if not installs:
                     continue
                 n += 1
@@ -864,8 +877,9 @@ def check_close_not_behind_activation(eng, run):
     aa = eng.db.cls(f"{BASE}.BaseAsyncNetworkServerImpl")
     act, sc = _meth(aa, "server_activate"), _meth(aa, "server_close")
     locks_a = {a.replace("self.", act.self_name + ".", 1) for a in _lock_attrs(aa)}
-    an = LockHeld(eng, locks_a, lambda node, a_: isinstance(node, ast.Await) and a_.engine.summaries.atom_may_suspend(act, node) and a_.interp is not None
+    an = LockHeld(eng, locks_a, lambda node, a_: isinstance(node, ast.Await) and a_.engine.summaries.atom_may_suspend(a_.fn or act, node) and a_.interp is not None
                   and any(isinstance(it.optional_vars, ast.Attribute) for it, _ in a_.interp.ctx.with_stack))
+    an.inline_helpers = True  # the part of the activation that runs the factory may live in a private helper
     Interp(an, act).run()
     held_in_activation = set()
     for node, held in an.sites:
